@@ -70,7 +70,9 @@ SRC_B = 'def last_without_newline(v):\n    w = v * 2\n    return w'
 SRC_C = ('def before_page(a):\n    return a + 1\n\x0c\ndef after_page(b):\n    s = "nel \x85 fs \x1c vt \x0b ls \u2028 ps \u2029 end"\n'
          '    # comment with gs \x1d and rs \x1e and ls \u2028 inside\n    t = b + len(s)\n    return t\n\x0c\n\ndef last_page(c):\n    u = c * 3\n    return u\n\n\n'
          # lambdas in a table, one of them over several lines: its recorded lines lie after the line it starts on
-         'DISPATCH = {\n    "triple": lambda x: (\n        x * 3\n        + 1\n    ),\n    "inc": lambda y: y + 2,\n}\n')
+         'DISPATCH = {\n    "triple": lambda x: (\n        x * 3\n        + 1\n    ),\n    "inc": lambda y: y + 2,\n}\n'
+         # two code objects that start on one line of one file (a one-line def returning a lambda): told apart by name only
+         'def make(k): return lambda x: x + k\n')
 
 def funcs_of(fname, src):
     """(file, co_firstlineno, name, last line) of every function / lambda in the source"""
@@ -89,6 +91,7 @@ def funcs_of(fname, src):
 FUNCS_A = funcs_of('mod_a.py', SRC_A.replace('\\t', '\t'))
 FUNCS_B = funcs_of('mod_b.py', SRC_B)
 FUNCS_C = funcs_of('mod_c.py', SRC_C)
+SAME_LINE = [f[1] for f in FUNCS_C if f[2] == 'make'][0]
 FUNCS_MISSING = [('gone.py', 10, 'vanished', 14), ('relgone.py', 3, 'lost', 6), ('<string>', 1, 'made_by_exec', 4), ('<doctest mod.f[0]>', 1, 'f', 2)]       # relgone.py: recorded under a relative name; a file of that name lies on sys.path
 HITS = [1, 2, 7, 40, 123456789, 999999999, 1000000000, 1234567890123, 10 ** 15]
 TIMES = [0, 1, 37, 999, 12345, 10 ** 6, 987654321, 10 ** 12, 10 ** 15, 10 ** 18]
@@ -100,6 +103,8 @@ def make_case(rng):
     pool = FUNCS_A + FUNCS_B + FUNCS_C + (FUNCS_MISSING if rng.chance(1, 3) else [])       # (pseudo file names of exec-made code are missing files too)
     k = rng.below(len(pool)) + 1
     chosen = rng.sample(pool, k)
+    if rng.fork('same-line').chance(1, 3):
+        chosen += [f for f in FUNCS_C if f[1] == SAME_LINE and f not in chosen]
     stats = []
     for (fn, first, name, last) in chosen:
         mode = rng.below(10)
